@@ -594,7 +594,10 @@ class RefRun:
                     gs = cap['g']
                     # backward order: captures of one window arrive per
                     # micro-batch as well (one per backward pass)
-                    gs = [gs[i] for i in sel]
+                    if len(gs) == len(cap['a']):
+                        gs = [gs[i] for i in sel]
+                    # (else: the layer saw fewer backward than forward
+                    # passes; the mean is over the backward passes seen)
                     MG = sum(R.moment_g(
                         mods[nm], g if scale is None else g.to(F64) / scale)
                         for g in gs) / len(gs)
